@@ -12,12 +12,12 @@ Proof. intros. unfold bindI. rewrite H. reflexivity. Qed.
 
 Definition dec_err (D : dopts) (t : wtree) : Prop :=
   forall f d r rest, (2 * length (ser t) + 1 <= f)%nat -> (d < maxdepth D)%Z ->
-  (maxdepth D <= d + tdepth D t)%Z ->
+  (maxdepth D <= d + tdepth_t D t)%Z ->
   fst (dec D f d r (ser t ++ rest)) = Err EDepth.
 
 Lemma arr_def_err : forall D l, Forall (dec_ok D) l -> Forall (dec_err D) l ->
   forall f d r rest, (2 * length (flat_map ser l) + 2 <= f)%nat -> (d < maxdepth D)%Z ->
-  (maxdepth D <= d + fold_right (fun x m => Z.max (tdepth D x) m) 0 l)%Z ->
+  (maxdepth D <= d + fold_right (fun x m => Z.max (tdepth_t D x) m) 0 l)%Z ->
   fst (arr_def D f d r (N.of_nat (length l)) (flat_map ser l ++ rest)) = Err EDepth.
 Proof.
   intros D l H. induction H as [| x l Hx Hl IH]; intros He f d r rest Hf Hd Hm.
@@ -27,7 +27,7 @@ Proof.
     replace (N.of_nat (length (x :: l)) =? 0) with false by (symmetry; apply N.eqb_neq; cbn [length]; lia).
     cbn [flat_map] in *. rewrite app_length in Hf. rewrite <- app_assoc. cbn [fold_right] in Hm.
     pose proof (ser_len_pos x) as Hp.
-    destruct (Z_lt_le_dec (d + tdepth D x) (maxdepth D)) as [Hok | Hbad].
+    destruct (Z_lt_le_dec (d + tdepth_t D x) (maxdepth D)) as [Hok | Hbad].
     + erewrite fst_bindI by (apply Hx; lia). cbv beta iota.
       replace (N.of_nat (length (x :: l)) - 1) with (N.of_nat (length l)) by (cbn [length]; lia).
       apply fst_bindI_err. apply IH; [assumption | lia | lia | lia].
@@ -36,7 +36,7 @@ Qed.
 
 Lemma arr_indef_err : forall D l, Forall (dec_ok D) l -> Forall (dec_err D) l -> Forall twf l ->
   forall f d r rest, (2 * length (flat_map ser l) + 2 <= f)%nat -> (d < maxdepth D)%Z ->
-  (maxdepth D <= d + fold_right (fun x m => Z.max (tdepth D x) m) 0 l)%Z ->
+  (maxdepth D <= d + fold_right (fun x m => Z.max (tdepth_t D x) m) 0 l)%Z ->
   fst (arr_indef D f d r (flat_map ser l ++ 255 :: rest)) = Err EDepth.
 Proof.
   intros D l H. induction H as [| x l Hx Hl IH]; intros He Hw f d r rest Hf Hd Hm.
@@ -50,7 +50,7 @@ Proof.
     rewrite E2. rewrite arr_indef_S.
     replace (bd =? bdBreak) with false by (symmetry; apply N.eqb_neq; exact Hne).
     rewrite <- E2.
-    destruct (Z_lt_le_dec (d + tdepth D x) (maxdepth D)) as [Hok | Hbad].
+    destruct (Z_lt_le_dec (d + tdepth_t D x) (maxdepth D)) as [Hok | Hbad].
     + erewrite fst_bindI by (apply Hx; lia). cbv beta iota.
       apply fst_bindI_err. apply IH; [assumption | assumption | lia | lia | lia].
     + apply fst_bindI_err. apply Hex; lia.
@@ -60,14 +60,14 @@ Qed.
 Lemma map_entry_err : forall D k v, dec_ok D k -> dec_ok D v -> dec_err D k -> dec_err D v -> twf v ->
   forall f' d r seen rest,
   (2 * length (ser k) + 1 <= f')%nat -> (2 * length (ser v) + 1 <= f')%nat -> (d < maxdepth D)%Z ->
-  (maxdepth D <= d + Z.max (tdepth D k) (tdepth D v))%Z ->
-  hashable (keynorm (go_of D (data_of k))) = true ->
-  existsb (key_eqb (keynorm (go_of D (data_of k)))) seen = false ->
+  (maxdepth D <= d + Z.max (tdepth_t D k) (tdepth_t D v))%Z ->
+  hashable (keynorm (go_of_t D (data_of k))) = true ->
+  existsb (key_eqb (keynorm (go_of_t D (data_of k)))) seen = false ->
   fst (map_entry (dec D f') d r seen (ser k ++ ser v ++ rest)) = Err EDepth.
 Proof.
   intros D k v Hk Hv Hek Hev Hwv f' d r seen rest Hfk Hfv Hd Hm Hh Hs.
   unfold map_entry.
-  destruct (Z_lt_le_dec (d + tdepth D k) (maxdepth D)) as [Hok | Hbad].
+  destruct (Z_lt_le_dec (d + tdepth_t D k) (maxdepth D)) as [Hok | Hbad].
   - erewrite fst_bindI by (apply Hk; assumption). cbv beta iota.
     destruct (ser_hd v Hwv) as (bd & tl & E & _).
     assert (E2 : ser v ++ rest = bd :: (tl ++ rest)) by (rewrite E; reflexivity).
@@ -82,7 +82,7 @@ Lemma map_def_err : forall D l,
   Forall (fun kv => twf (fst kv) /\ twf (snd kv)) l ->
   forall f d r seen rest, (2 * length (flat_map pair_ser l) + 2 <= f)%nat -> (d < maxdepth D)%Z ->
   (maxdepth D <= d + fold_right (pair_depth D) 0 l)%Z ->
-  keys_ok D seen l ->
+  keys_ok_t D seen l ->
   fst (map_def D f d r (N.of_nat (length l)) seen (flat_map pair_ser l ++ rest)) = Err EDepth.
 Proof.
   intros D l H. induction H as [| kv l [Hk Hv] Hl IH]; intros He Hw f d r seen rest Hf Hd Hm Hkeys.
@@ -93,8 +93,8 @@ Proof.
     cbn [flat_map] in *. unfold pair_ser at 1 in Hf. unfold pair_ser at 1.
     rewrite !app_length in Hf. rewrite <- !app_assoc. cbn [fold_right] in Hm. unfold pair_depth at 1 in Hm.
     pose proof (ser_len_pos (fst kv)) as Hp1. pose proof (ser_len_pos (snd kv)) as Hp2.
-    cbn [keys_ok] in Hkeys. destruct Hkeys as (Hh & Hs & Hkeys).
-    destruct (Z_lt_le_dec (d + Z.max (tdepth D (fst kv)) (tdepth D (snd kv))) (maxdepth D)) as [Hok | Hbad].
+    cbn [keys_ok_t] in Hkeys. destruct Hkeys as (Hh & Hs & Hkeys).
+    destruct (Z_lt_le_dec (d + Z.max (tdepth_t D (fst kv)) (tdepth_t D (snd kv))) (maxdepth D)) as [Hok | Hbad].
     + erewrite fst_bindI by (apply map_entry_ser; try assumption; lia). cbv beta iota. cbn [fst].
       replace (N.of_nat (length (kv :: l)) - 1) with (N.of_nat (length l)) by (cbn [length]; lia).
       apply fst_bindI_err. apply IH; [assumption | assumption | lia | lia | lia | exact Hkeys].
@@ -107,7 +107,7 @@ Lemma map_indef_err : forall D l,
   Forall (fun kv => twf (fst kv) /\ twf (snd kv)) l ->
   forall f d r seen rest, (2 * length (flat_map pair_ser l) + 2 <= f)%nat -> (d < maxdepth D)%Z ->
   (maxdepth D <= d + fold_right (pair_depth D) 0 l)%Z ->
-  keys_ok D seen l ->
+  keys_ok_t D seen l ->
   fst (map_indef D f d r seen (flat_map pair_ser l ++ 255 :: rest)) = Err EDepth.
 Proof.
   intros D l H. induction H as [| kv l [Hk Hv] Hl IH]; intros He Hw f d r seen rest Hf Hd Hm Hkeys.
@@ -117,26 +117,26 @@ Proof.
     cbn [flat_map] in *. unfold pair_ser at 1 in Hf. unfold pair_ser at 1.
     rewrite !app_length in Hf. rewrite <- !app_assoc. cbn [fold_right] in Hm. unfold pair_depth at 1 in Hm.
     pose proof (ser_len_pos (fst kv)) as Hp1. pose proof (ser_len_pos (snd kv)) as Hp2.
-    cbn [keys_ok] in Hkeys. destruct Hkeys as (Hh & Hs & Hkeys).
+    cbn [keys_ok_t] in Hkeys. destruct Hkeys as (Hh & Hs & Hkeys).
     destruct (ser_hd (fst kv) Hwk) as (bd & tl & E & Hne).
     assert (E2 : ser (fst kv) ++ ser (snd kv) ++ flat_map pair_ser l ++ 255 :: rest
                  = bd :: (tl ++ ser (snd kv) ++ flat_map pair_ser l ++ 255 :: rest)) by (rewrite E; reflexivity).
     rewrite E2. rewrite map_indef_S.
     replace (bd =? bdBreak) with false by (symmetry; apply N.eqb_neq; exact Hne).
     rewrite <- E2.
-    destruct (Z_lt_le_dec (d + Z.max (tdepth D (fst kv)) (tdepth D (snd kv))) (maxdepth D)) as [Hok | Hbad].
+    destruct (Z_lt_le_dec (d + Z.max (tdepth_t D (fst kv)) (tdepth_t D (snd kv))) (maxdepth D)) as [Hok | Hbad].
     + erewrite fst_bindI by (apply map_entry_ser; try assumption; lia). cbv beta iota. cbn [fst].
       apply fst_bindI_err. apply IH; [assumption | assumption | lia | lia | lia | exact Hkeys].
     + apply fst_bindI_err. apply map_entry_err; try assumption; lia.
 Qed.
 
-Theorem dec_ser_err : forall D t, twf t -> lib_supports D t -> dec_err D t.
+Theorem dec_ser_err : forall D t, twf t -> lib_supports_t D t -> dec_err D t.
 Proof.
   intros D t. induction t using wtree_ind'; intros Hw Hs f d r rest Hf Hd Hm;
-    try (cbn [tdepth] in Hm; lia);
+    try (cbn [tdepth_t] in Hm; lia);
     (destruct f as [| f']; [exfalso; lia |]).
   - (* TArr *)
-    cbn [ser twf lib_supports tdepth] in *. destruct Hw as [Hw Hwl]. destruct Hs as [Hsl Hlen].
+    cbn [ser twf lib_supports_t tdepth_t] in *. destruct Hw as [Hw Hwl]. destruct Hs as [Hsl Hlen].
     apply fix_Forall in Hwl. apply fix_Forall in Hsl.
     assert (Hok : Forall (dec_ok D) l) by (rewrite Forall_forall in *; intros x Hx; apply dec_ser; auto).
     assert (Her : Forall (dec_err D) l) by (rewrite Forall_forall in *; intros x Hx; apply H; auto).
@@ -149,7 +149,7 @@ Proof.
     rewrite app_length, shead_cons in Hf. cbn [length] in Hf.
     apply fst_bindI_err. apply arr_def_err; [assumption | assumption | lia | lia | lia].
   - (* TArrI *)
-    cbn [ser twf lib_supports tdepth] in *. destruct Hs as [Hsl Hlen].
+    cbn [ser twf lib_supports_t tdepth_t] in *. destruct Hs as [Hsl Hlen].
     apply fix_Forall in Hw. apply fix_Forall in Hsl.
     assert (Hok : Forall (dec_ok D) l) by (rewrite Forall_forall in *; intros x Hx; apply dec_ser; auto).
     assert (Her : Forall (dec_err D) l) by (rewrite Forall_forall in *; intros x Hx; apply H; auto).
@@ -159,7 +159,7 @@ Proof.
     rewrite !app_length in Hf. cbn [length] in Hf. rewrite <- app_assoc. cbn [app].
     apply fst_bindI_err. apply arr_indef_err; [assumption | assumption | assumption | lia | lia | lia].
   - (* TMap *)
-    cbn [ser twf lib_supports tdepth] in *. destruct Hw as [Hw Hwl]. destruct Hs as (Hsl & Hkeys & Hlen).
+    cbn [ser twf lib_supports_t tdepth_t] in *. destruct Hw as [Hw Hwl]. destruct Hs as (Hsl & Hkeys & Hlen).
     apply fix_Forall2 in Hwl. apply fix_Forall2 in Hsl.
     assert (Hok : Forall (fun kv => dec_ok D (fst kv) /\ dec_ok D (snd kv)) l).
     { rewrite Forall_forall in *. intros x Hx. specialize (Hwl x Hx). specialize (Hsl x Hx). split; apply dec_ser; tauto. }
@@ -175,7 +175,7 @@ Proof.
     change (flat_map (fun kv => ser (fst kv) ++ ser (snd kv)) l) with (flat_map pair_ser l) in *.
     apply fst_bindI_err. apply map_def_err; [assumption | assumption | assumption | lia | lia | unfold pair_depth; lia | assumption].
   - (* TMapI *)
-    cbn [ser twf lib_supports tdepth] in *. destruct Hs as (Hsl & Hkeys & Hlen).
+    cbn [ser twf lib_supports_t tdepth_t] in *. destruct Hs as (Hsl & Hkeys & Hlen).
     apply fix_Forall2 in Hw. apply fix_Forall2 in Hsl.
     assert (Hok : Forall (fun kv => dec_ok D (fst kv) /\ dec_ok D (snd kv)) l).
     { rewrite Forall_forall in *. intros x Hx. specialize (Hw x Hx). specialize (Hsl x Hx). split; apply dec_ser; tauto. }
@@ -188,7 +188,9 @@ Proof.
     change (flat_map (fun kv => ser (fst kv) ++ ser (snd kv)) l) with (flat_map pair_ser l) in *.
     apply fst_bindI_err. apply map_indef_err; [assumption | assumption | assumption | lia | lia | unfold pair_depth; lia | assumption].
   - (* TTag *)
-    cbn [ser twf lib_supports tdepth] in *. destruct Hw as [Hw Hwv]. destruct Hs as [Ht Hsv].
+    cbn [ser twf lib_supports_t tdepth_t] in *. destruct Hw as [Hw Hwv].
+    destruct Hs as [[Ht Hsv] | (Ht & Hsv & Htx)]; [| subst t; cbn [N.eqb] in Hm; lia].
+    replace (t =? 0) with false in * by (symmetry; apply N.eqb_neq; lia).
     rewrite shead_cons. rewrite <- app_assoc. cbn [app]. rewrite dec_S. unfold dec_body.
     pose proof (ai_of_le _ _ Hw). rewrite kind_head by lia.
     rewrite (proj1 (proj2 (proj2 (proj2 (proj2 (proj2 (proj2 kind_vals))))))). cbv iota.
@@ -360,13 +362,21 @@ Qed.
 Lemma maxdepth_pos : forall D, (0 < maxdepth D)%Z.
 Proof. intros D. unfold maxdepth. destruct (0 <? do_maxdepth D)%Z eqn:E; [apply Z.ltb_lt in E; lia | reflexivity]. Qed.
 
-Lemma dec_depth_err_lemma : forall (D : dopts) (t : wtree) (rest : list N),
-  twf t -> lib_supports D t -> (maxdepth D <= tdepth D t)%Z ->
+Lemma dec_depth_err_t_lemma : forall (D : dopts) (t : wtree) (rest : list N),
+  twf t -> lib_supports_t D t -> (maxdepth D <= tdepth_t D t)%Z ->
   dec_naked D (fuel_for (ser t ++ rest)) (ser t ++ rest) = Err EDepth.
 Proof.
   intros D t rest Hw Hs Hm. unfold dec_naked. pose proof (maxdepth_pos D). apply dec_ser_err; try assumption.
   all: try (unfold fuel_for; rewrite app_length; lia).
   all: lia.
+Qed.
+
+Lemma dec_depth_err_lemma : forall (D : dopts) (t : wtree) (rest : list N),
+  twf t -> lib_supports D t -> (maxdepth D <= tdepth D t)%Z ->
+  dec_naked D (fuel_for (ser t ++ rest)) (ser t ++ rest) = Err EDepth.
+Proof.
+  intros D t rest Hw Hs Hm. destruct (compat_t D t Hs) as (C1 & C2 & C3).
+  apply dec_depth_err_t_lemma; [assumption | assumption | lia].
 Qed.
 
 Lemma skip_depth_err_lemma : forall (D : dopts) (t : wtree) (d : Z) (rest : list N),
